@@ -112,7 +112,7 @@ def run_conn(chk, prop, tier, seed, alias=None):
     for n in g.nodes.values():
         kinds[n["ev"]["a"]] = kinds.get(n["ev"]["a"], 0) + 1
     missing = [k for k in ("MakeRequest", "ConnectOK", "ConnectFail", "Timer", "Frame", "Partial", "Rest", "BadLen",
-                           "ConnLost", "Cancel", "Disconnect", "Close", "Readdress") if not kinds.get(k)]
+                           "ConnLost", "Cancel", "Disconnect", "Close", "Readdress", "Arm") if not kinds.get(k)]
     if missing:
         raise tlc.MachineryError("vacuity: events never taken in the design model: %s" % missing)
     chk.extra["graph"] = {"nodes": len(g.nodes), "edges": g.nedges, "paths_in_edge_cover": len(paths),
@@ -131,7 +131,7 @@ def run_conn(chk, prop, tier, seed, alias=None):
     for k in range(nrand):
         traces.append(conn.random_schedule_run(seed * 1000003 + k, 60 if thorough else 45, max_ids=10))
         sources.append("random seed=%d" % (seed * 1000003 + k))
-    max_conn = max([sum(1 for r in t if r["e"]["a"] == "ConnectOK") for t in traces] + [1]) + 1
+    max_conn = max([max([r["o"].get("nconn", 0) for r in t] + [0]) for t in traces] + [1]) + 1
     results, tstates = tlc.validate_traces(wd, "BrokerConn_Trace", traces, DEFS, trace_cfg(10, max_conn))
     chk.add_traces(len(traces), sum(len(t) for t in traces))
     chk.sample({"family": "conn", "source": sources[0], "trace": traces[0][:8]})
